@@ -339,7 +339,7 @@ func (u *Unit) heapWF(key, name, sort, alloc string) {
 	}
 	if elem == "Int" && u.isRefType(ft) {
 		u.reg.axiom(fmt.Sprintf("(forall ((r Int)) (! (and (<= 0 (select %s r)) (<= (select %s r) %s)) :pattern ((select %s r))))", name, name, alloc, name))
-		if mt, ok := types.Unalias(ft).Underlying().(*types.Map); ok {
+		if mt, ok := types.Unalias(ft).Underlying().(*types.Map); ok && u.reg.mapTypeID(mt) != 0 {
 			u.reg.declare("mapty", []string{"Int"}, "Int")
 			u.reg.axiom(fmt.Sprintf("(forall ((r Int)) (! (=> (not (= (select %s r) 0)) (= (mapty (select %s r)) %d)) :pattern ((select %s r))))", name, name, u.reg.mapTypeID(mt), name))
 		}
@@ -352,7 +352,7 @@ func (u *Unit) heapWF(key, name, sort, alloc string) {
 			acc := fmt.Sprintf("(%s_%s (select %s r))", elem, sanitize(f.name), name)
 			if f.sort == "Int" && u.isRefType(f.typ) {
 				conj = append(conj, "(<= 0 "+acc+")", "(<= "+acc+" "+alloc+")")
-				if mt, ok := types.Unalias(f.typ).Underlying().(*types.Map); ok {
+				if mt, ok := types.Unalias(f.typ).Underlying().(*types.Map); ok && u.reg.mapTypeID(mt) != 0 {
 					u.reg.declare("mapty", []string{"Int"}, "Int")
 					conj = append(conj, fmt.Sprintf("(=> (not (= %s 0)) (= (mapty %s) %d))", acc, acc, u.reg.mapTypeID(mt)))
 				}
@@ -523,8 +523,12 @@ func (u *Unit) mapTypeFact(st *State, ref string, t types.Type) {
 	if !ok {
 		return
 	}
+	id := u.reg.mapTypeID(mt)
+	if id == 0 {
+		return
+	}
 	u.reg.declare("mapty", []string{"Int"}, "Int")
-	st.assume(implies(not(eq(ref, "0")), eq("(mapty "+ref+")", fmt.Sprint(u.reg.mapTypeID(mt)))))
+	st.assume(implies(not(eq(ref, "0")), eq("(mapty "+ref+")", fmt.Sprint(id))))
 }
 
 func isSimpleLiteral(t string) bool {
